@@ -198,7 +198,8 @@ func (c14) coldRound(ctx *core.Ctx, cs *core.Case) {
 	n := 40 + r.IntN(60)
 	plan := make([]c14call, n)
 	lazyInputs := []string{"http://h/%", "http://h/%zz?%#%", "http://ex%ample.com/", "http://bücher.example/%", "http://a%25b/", "http://h/a%2", "//h/%", "http://h/?a=%&b", "a:%", "http://münchen.example/ü?ü#ü",
-		"http://1.2.3.4/", "http://0x7f.1/x", "http://[::1]/", "http://[1:0:0:2::3]:81/", "file:///C|/x", "http://h:80/", "http://h/?a=1&b=2", "a://%41/", "http://xn--nxasmq6b/", "http://a\u00adb/", "//1.2.3.4/x", "?a=b&c", "#f", "../x"}
+		"http://1.2.3.4/", "http://0x7f.1/x", "http://[::1]/", "http://[1:0:0:2::3]:81/", "file:///C|/x", "http://h:80/", "http://h/?a=1&b=2", "a://%41/", "http://xn--nxasmq6b/", "http://a\u00adb/", "//1.2.3.4/x", "?a=b&c", "#f", "../x",
+		"http://ex%41mple.COM/", "http://a\xffb%ff.example/", "http://%ff\x7f/", "http://a b%ff/", "http://h/?a=%41&%42=c", "http://[::ffff:1.2.3.4]/", "http://h/%2e%2E/x"}
 	for i := range plan {
 		c := c14call{kind: gen.Pick(r, []string{"url.Parse", "url.ParseRef", "parser.Parse", "parser.ParseRef", "profile.Parse", "profile.Parse", "profile.ParseRef"}), prof: r.IntN(4)}
 		switch {
